@@ -108,6 +108,41 @@ pub fn oracle<E: Engine>(ctx: &RunCtx, spec: &CapSpec, log: &mut CaseLog) -> Res
             },
         }
     }
+    // ... and the parameter object a statement CARRIES (public field `generators`) is still the full-capacity set: the same
+    // vector generators, and usable for a larger aggregate that fits its capacity
+    if cp > m {
+        let carried = t.st.generators.clone();
+        let gi: Vec<E::P> = carried.gi_base_iter().cloned().collect();
+        let hi: Vec<E::P> = carried.hi_base_iter().cloned().collect();
+        let fresh = E::params(bits, cp, spec.ext).map_err(|e| format!("params: {:?}", e))?;
+        if gi != fresh.gi_base_iter().cloned().collect::<Vec<_>>() || hi != fresh.hi_base_iter().cloned().collect::<Vec<_>>() {
+            return Err(format!(
+                "the capacity-{} parameters carried by a statement of {} commitments no longer hand out the generators of capacity {}",
+                cp, m, cp
+            ));
+        }
+        use tari_bulletproofs_plus::{commitment_opening::CommitmentOpening, range_statement::RangeStatement, range_witness::RangeWitness};
+        let mut g = chacha(spec.order ^ 0xca9);
+        let vals: Vec<u64> = (0..cp).map(|j| (j as u64) & 1).collect();
+        let rs: Vec<Vec<curve25519_dalek::scalar::Scalar>> = (0..cp).map(|_| (0..spec.ext).map(|_| crate::gen::rand_scalar(&mut g)).collect()).collect();
+        let cs: Vec<E::P> = vals
+            .iter()
+            .zip(rs.iter())
+            .map(|(v, r)| E::commit(carried.pc_gens(), &curve25519_dalek::scalar::Scalar::from(*v), r).map_err(|e| format!("{:?}", e)))
+            .collect::<Result<_, _>>()?;
+        let st_full = RangeStatement::init(carried, cs, vec![None; cp], None).map_err(|e| format!("statement of {} commitments over carried parameters: {:?}", cp, e))?;
+        let w_full = RangeWitness::init(vals.iter().zip(rs.iter()).map(|(v, r)| CommitmentOpening::new(*v, r.clone())).collect()).map_err(|e| format!("{:?}", e))?;
+        let pf = guarded(|| E::prove(&mut t.transcript(), &st_full, &w_full, &mut crate::eng::RngSpec::ChaCha(spec.order).make()))?.map_err(|e| {
+            format!(
+                "prover refused {} commitments over the capacity-{} parameters taken out of a statement of {} commitments: {:?}",
+                cp, cp, m, e
+            )
+        })?;
+        let fresh_st = RangeStatement::init(fresh, st_full.commitments.clone(), vec![None; cp], None).map_err(|e| format!("{:?}", e))?;
+        guarded(|| E::verify(&mut [t.transcript()], &[fresh_st], &[pf], VerifyAction::VerifyOnly))?
+            .map_err(|e| format!("proof over parameters taken out of a smaller statement refused under fresh parameters of the same capacity: {:?}", e))?;
+        log.extra_evals += 2;
+    }
     // verify under the verifier's capacity, alone
     let st_v = t
         .statement_with(t.seed, None, Some(cv))
@@ -191,11 +226,16 @@ pub fn def() -> PropertyDef {
         rule: "A case is an aggregate of m in {1,2,4,8} commitments proved under capacity c_p = m*2^a and verified under a statement rebuilt with \
                capacity c_v = m*2^b (a, b in 0..4, all bit lengths, degrees 1-6), alone and inside a batch of up to 5 other valid members with \
                their own capacities in generated order, in each verify mode. Oracle: accepted alone and in the batch, masks aligned; the \
-               vector generators obtained for capacities m, c_p and c_v agree on their common prefix, party by party. \
+               vector generators obtained for capacities m, c_p and c_v agree on their common prefix, party by party; the parameter object carried by a statement of m < c_p commitments still hands out the generators of capacity c_p and proves / verifies an aggregate of c_p commitments. Second generator: all-honest batches of 2-700 members from a pool with mixed capacities (beyond the chunk size). \
                Non-trivial = c_p != c_v or a batch with >= 2 distinct capacities; distinct by (bits, m, c_p, c_v, #capacities, mode, degree)."
             .into(),
         assumptions: vec!["size bound bits*capacity <= 1024 (quick F) / 256 (quick R)".into()],
         exhaustive: false,
-        subs: vec![cap_sub::<F>((10_000, 120_000)), cap_sub::<R>((800, 6000))],
+        subs: vec![
+            // beyond the chunk size: all-honest batches of up to 700 members drawn from a pool with mixed capacities
+            crate::props::c01::long_sub::<F>((60, 1000)),
+            cap_sub::<F>((10_000, 120_000)),
+            cap_sub::<R>((800, 6000)),
+        ],
     }
 }
